@@ -62,6 +62,21 @@ CHECKS = {
         technique="TLA+ model (TLC exhaustive) + model-generated scenarios replayed on the code + TLC trace monitor",
         design_ref="DESIGN.md section 5 C08",
     ),
+    "C04": dict(
+        level="differential_testing",
+        text="Encodings.tla states the page encodings as decoders written from the format document (PLAIN, RLE/bit-packed "
+             "hybrid, BIT_PACKED, dictionary indexes, DELTA_BINARY_PACKED with byte-wise wrap-around arithmetic, "
+             "DELTA_LENGTH_BYTE_ARRAY, DELTA_BYTE_ARRAY, BYTE_STREAM_SPLIT), self-checked on hand-worked examples of that "
+             "document. TLC enumerates (encoding, type) x length class x shape descriptors; the harness expands them and "
+             "calls the library's encoders and decoders in the assembly and the purego build with clean, dirty, short, "
+             "non-empty and previous-output destination buffers. EncMon.tla makes TLC decode the library's bytes with the "
+             "specification and requires the input back, every library decode to agree, and the bytes to be independent of "
+             "the destination buffer's past and of the build.",
+        note="The specification decodes what the library emits (the library's decoder is not fed encodings of other "
+             "writers); sequences of up to 300 values; quick tier samples 18 descriptors per (encoding, type) pair.",
+        technique="executable TLA+ specification of the encodings evaluated by TLC as independent decoder over TLC-enumerated pattern descriptors run on two builds of the code",
+        design_ref="DESIGN.md section 5 C04",
+    ),
     "C05": dict(
         level="model_checking",
         text="Stats.tla models the fold of page bounds into chunk statistics (NaN-aware Compare, all-NaN and all-null "
